@@ -91,6 +91,21 @@ def bounds(rng, n, x0, patterns=None, force=None, radius=1.0):
     return lb, ub, pats
 
 
+def reduced_dim(lb, ub):
+    """Number of variables the solver keeps (documented rule: a variable is
+    fixed when lb <= ub and |lb - ub| < 10*eps*n*max(1, |finite bounds|))."""
+    lb = np.asarray(lb, dtype=float)
+    ub = np.asarray(ub, dtype=float)
+    lo = np.where(np.isnan(lb), -INF, lb)
+    hi = np.where(np.isnan(ub), INF, ub)
+    fin = np.concatenate([lo[np.isfinite(lo)], hi[np.isfinite(hi)]])
+    w = max(1.0, float(np.max(np.abs(fin)))) if fin.size else 1.0
+    tol = 10.0 * np.finfo(float).eps * max(lo.size, 1) * w
+    with np.errstate(invalid="ignore"):
+        fixed = (lo <= hi) & (np.abs(lo - hi) < tol)
+    return int(np.count_nonzero(~fixed))
+
+
 def place_x0(rng, x0, lb, ub, where=None):
     """Move x0 inside / on / outside the box."""
     x0 = np.array(x0, dtype=float)
@@ -315,6 +330,13 @@ def general(rng, *, n=None, con=None, bound_patterns=None, x0_where=None,
         x0, where = place_x0(rng, x0, lb, ub, x0_where)
         spec["x0_where"] = where
     spec["x0"] = x0.tolist()
+    if "nb_points" in opts and spec.get("bounds"):
+        nred = reduced_dim(spec["bounds"]["lb"], spec["bounds"]["ub"])
+        if nred >= 1:
+            opts["nb_points"] = int(min(max(opts["nb_points"], nred + 1),
+                                        (nred + 1) * (nred + 2) // 2))
+        else:
+            opts.pop("nb_points")
     if con in ("lin", "both"):
         spec["lin"] = linear_constraints(rng, n, x0, kinds=limit_kinds)
     if con in ("nl", "both"):
